@@ -74,8 +74,8 @@ Definition run (fn : str) (args : list str) : str :=
     (* args: returncode, expected_fail (T/F), lines... *)
     match args with
     | rc :: xf :: lines =>
-        match parse lines with
-        | Ok evs => r_tres (verdict (dec_Z rc) (str_eqb xf [84]) evs)
+        match run_verdict (dec_Z rc) (str_eqb xf [84]) lines with
+        | Ok r => r_tres r
         | PyErr c => r_exc c
         end
     | _ => s2l "?" end
